@@ -406,19 +406,40 @@ func init() {
 // zooSource: variant v of the zoo file (package c08/pz<v>): the same declarations, the calls rotated differently,
 // so that goroutines working on different variants apply one shared pattern to different types at the same time
 func zooSource(v, scale int) string {
+	return zooDeclsSource(fmt.Sprintf("pz%d", v), false) + zooBody(v, scale)
+}
+
+// the declarations of a zoo package (types, values, sink functions)
+func zooDeclsSource(pkg string, pm bool) string {
 	var b strings.Builder
-	fmt.Fprintf(&b, "package pz%d\n\nimport (\n\t\"bytes\"\n\t\"io\"\n\t\"strings\"\n\t\"unsafe\"\n)\n", v)
+	fmt.Fprintf(&b, "package %s\n\nimport (\n\t\"bytes\"\n\t\"io\"\n\t\"strings\"\n\t\"unsafe\"\n)\n", pkg)
 	b.WriteString(zooDecls)
 	b.WriteString("\nvar Upper, lower, Ünit, last int\n\n")
 	for i := range ltTypeFilters {
 		fmt.Fprintf(&b, "func %s(interface{}) {}\n", ltSinkName(i))
 	}
+	return b.String()
+}
+
+// zooPMSources: the zoo once more as three files of the package c08/pm (declarations, two bodies): the shared-RunContext
+// rounds then apply the shared patterns to the SAME type objects from several goroutines
+func zooPMSources() map[string]string {
+	return map[string]string{
+		"zd": zooDeclsSource("pm", true),
+		"z0": "package pm\n" + zooBody(0, 0),
+		"z1": "package pm\n" + zooBody(3, 0),
+	}
+}
+
+// the functions of variant v (their names carry v, so several variants fit into one package)
+func zooBody(v, scale int) string {
+	var b strings.Builder
 	nv := len(zooValues)
 	// every sink walks the value table with stride 7; the 8 (variant, function) pairs take consecutive blocks of that walk,
 	// 8 * per >= 53: across the four variants every sink sees every value, in every file a different part of the table
 	per := 7 + scale
 	for fn := 0; fn < 2; fn++ {
-		fmt.Fprintf(&b, "\n// FIXME(%s): tidy types%d, hack %d\nfunc types%d() {\n", []string{"alice", "zoe", "bob", "mallory"}[(v+fn)%4], fn, fn+v, fn)
+		fmt.Fprintf(&b, "\n// FIXME(%s): tidy types%d, hack %d\nfunc types%d_%d() {\n", []string{"alice", "zoe", "bob", "mallory"}[(v+fn)%4], fn, fn+v, v, fn)
 		blk := 2*v + fn
 		for i := range ltTypeFilters {
 			for k := 0; k < per; k++ {
